@@ -20,6 +20,12 @@ aspil() / shape.  The real flip_parity, flip_parity again, ensure_negative_parit
 prediction: parity signs, row order read through asarray() AND through aspil(), wcs_pix2world before at (x, y) against
 after at (x, h-1-y) for every pixel (1e-9 deg on the sphere), the linear stage (imgcrd) against TLC's world table,
 header CD / CRPIX (drift only).
+
+Call histories: in a second pair of TLC runs the spec records the calls made (MaxHist = 4, thorough 5): every sequence of
+that many calls over {flip_parity, ensure_negative_parity} (x a data read, asarray()/dtype, for PIL-backed objects) from
+every case of a thin header set is a behaviour of its own, checked by the same invariants plus EnsureAlwaysNegative
+(sign -1 after every ensure of every history).  Each history is replayed on ONE real object of its kind and compared with
+the spec's state after every call (sign, rows in both views, sky positions); judging stops at the first deviating call.
 """
 import itertools
 import math
@@ -42,11 +48,13 @@ CONSTANTS
  Headers <- MCHeaders
  RefX <- MCRefX
  RefY <- MCRefY
+ MaxHist = %d
 INVARIANT WellFormed
 INVARIANT SkyUnchanged
 INVARIANT SamePicture
 INVARIANT SignTracksRows
 INVARIANT ViewsAgree
+INVARIANT EnsureAlwaysNegative
 INVARIANT Emit
 PROPERTY FlipOK
 PROPERTY EnsureOK
@@ -92,10 +100,24 @@ def headers(rng, n_random, every_pc_form=1):
     return out
 
 
-def mc_module(kinds, widths, heights, hdrs, refx, refy):
+def history_headers(hdrs):
+    """a thin header set for the call-history runs: both parities, unrotated / rotated / skewed, CD and PC+CDELT forms
+    (identity PC = the plain CDELT-only header), plus the last two seeded matrices"""
+    pick = [((1, 1), (1, 0, 0, 1)), ((1, 1), (1, 0, 0, -1)), ((-1, 1), (1, 0, 0, 1)), ((-1, 1), (0, 1, 1, 0)),
+            ((1, 1), (0, -1, 1, 0)), ((1, 1), (3, -4, 4, 3)), ((-1, 1), (3, 4, 4, -3)), ((2, -3), (5, -12, 12, 5)),
+            ((-1, 2), (2, 1, 0, 1)), ((1, 1), (3, 1, 1, 2))]
+    missing = [x for x in pick if x not in hdrs]
+    assert not missing, missing
+    return pick + [x for x in hdrs[-2:] if x not in pick]
+
+
+def mc_module(kinds, widths, heights, hdrs, refx, refy, maxhist=0):
     defs = [("MCKinds", tla.lit(set(kinds))), ("MCWidths", tla.lit(set(widths))), ("MCHeights", tla.lit(set(heights))),
-            ("MCHeaders", tla.lit(set(hdrs))), ("MCRefX", tla.lit(set(refx))), ("MCRefY", tla.lit(set(refy))),
-            'Emit == (cur = Start(orig)) => PrintT(<<"R", ToJson(Report)>>)']
+            ("MCHeaders", tla.lit(set(hdrs))), ("MCRefX", tla.lit(set(refx))), ("MCRefY", tla.lit(set(refy)))]
+    if maxhist == 0:
+        defs.append('Emit == (cur = Start(orig)) => PrintT(<<"R", ToJson(Report)>>)')
+    else:       # one record per complete call history
+        defs.append('Emit == (Len(hist) = MaxHist) => PrintT(<<"H", ToJson(HistoryReport)>>)')
     return tla.module("MCParity", ["Parity", "Json"], defs)
 
 
@@ -265,6 +287,90 @@ def replay_case(args):
             bad("D", op, "header", "header after %s has CD=%s CRPIX=%s, the specified reflection gives CD=%s CRPIX=%s"
                 % (op, cd, crpix, exp_cd, exp_p))
 
+    def replay_history():
+        """one real object, the calls of rec["hist"] in order, compared with the spec's state after every call"""
+        nonlocal ncalls
+        obj, _ = build()
+        ob0 = observe(obj)
+        if not world_ok(ob0, rec["world"]):
+            return [("M", "build", "the WCS built by the harness does not have the spec's linear stage: %r" % (case,), case)], 1
+        if ob0["sign"] != rec["start"]["sign"]:
+            res.append(("V", "%s.get_parity_sign:convention" % cls,
+                        "%s.get_parity_sign() = %r for a CD determinant of %g (documented: negative determinant -> +1, positive -> -1)"
+                        % (cls, ob0["sign"], rec["start"]["det"] * SCALE * SCALE), case))
+        mirror_src = np.array([(h - 1 - y) * w + x for y in range(h) for x in range(w)])
+        done = []
+        prev_sign = ob0["sign"]
+        prev_ob = ob0
+        for i, (act, step) in enumerate(zip(rec["hist"], rec["trace"])):
+            snap = step["snap"]
+            if act == "flip":
+                op = "flip_parity"
+                obj.flip_parity()
+            elif act == "ensure":
+                op = "ensure_negative_parity"
+                obj.ensure_negative_parity()
+            else:
+                op = "asarray"
+                if i % 2:
+                    obj.dtype
+                else:
+                    obj.asarray()
+            ncalls += 1
+            done.append(op)
+            hist_txt = " [calls so far: %s]" % " -> ".join(done)
+            ob = observe(obj)
+            n_before = len([x for x in res if x[0] == "V"])
+            if act == "touch":
+                # reading the data must change nothing (whether the state is right was judged at the call that produced it)
+                same = (ob["sign"] == prev_ob["sign"] and bool((ob["ident"] == prev_ob["ident"]).all())
+                        and float(_sep_deg(ob["sky"], prev_ob["sky"]).max()) <= TOL_DEG)
+                if not same:
+                    bad("V", op, "changed", "reading the pixel data changed the object (sign %+d -> %+d, rows %s -> %s)%s"
+                        % (prev_ob["sign"], ob["sign"], stored_rows(prev_ob["ident"]), stored_rows(ob["ident"]), hist_txt))
+                    break
+                pil_view_check(op + hist_txt, i + 1, ob, snap)
+                prev_ob = ob
+                continue
+            prev_ob = ob
+            if ob["sign"] != snap["sign"]:
+                if act == "ensure":
+                    bad("V", op, "sign", "parity sign %+d after ensure_negative_parity%s" % (ob["sign"], hist_txt))
+                elif act == "flip":
+                    bad("V", op, "sign", "parity sign %+d before flip_parity, %+d after%s" % (prev_sign, ob["sign"], hist_txt))
+                else:
+                    bad("V", op, "sign", "parity sign changed from %+d to %+d by reading the data%s" % (prev_sign, ob["sign"], hist_txt))
+            prev_sign = ob["sign"]
+            if has_data:
+                if ob["ident"].shape != (h, w) or not rows_ok(ob, snap["rows"]):
+                    bad("V", op, "rows" if act != "ensure" else "sky",
+                        "the stored rows are %s (original row numbers), specified %s%s"
+                        % (stored_rows(ob["ident"]) if ob["ident"].shape == (h, w) else ob["ident"].shape, snap["rows"], hist_txt))
+                else:
+                    sep = sky_follows_rows(ob, ob0, snap["rows"])
+                    if not sep <= TOL_DEG:
+                        bad("V", op, "sky", "a pixel moved on the sky by %.3g deg (stored rows %s, sign %+d)%s" % (sep, snap["rows"], ob["sign"], hist_txt))
+                pil_view_check(op + hist_txt, i + 1, ob, snap)
+            else:
+                flipped = snap["cd"] != rec["start"]["cd"]
+                sep = float(_sep_deg(ob["sky"], ob0["sky"][mirror_src] if flipped else ob0["sky"]).max())
+                if not sep <= TOL_DEG:
+                    bad("V", op, "sky", "pixels moved on the sky by %.3g deg relative to the %s original%s" % (sep, "mirrored" if flipped else "unchanged", hist_txt))
+            if not world_ok(ob, step["world"]):
+                bad("V" if act != "touch" else "D", op, "sky", "the linear WCS stage differs from the specified world table%s" % hist_txt)
+            header_drift(op, ob, snap)
+            if len([x for x in res if x[0] == "V"]) > n_before:
+                break                 # the object has left the specified path: later calls would be judged against the wrong state
+        return res, ncalls
+
+    if "hist" in rec:
+        try:
+            return replay_history()
+        except Exception as e:  # noqa
+            import traceback
+            bad("V", "flip_parity", "raises", "parity operations raised %r in history %s (%s)" % (e, rec["hist"], traceback.format_exc().splitlines()[-3].strip()))
+            return res, ncalls
+
     try:
         # ---------------- start
         obj, _ = build()
@@ -364,8 +470,10 @@ def run(ctx):
                 "the harness (headers: all 48 non-singular matrices over {-1,0,1} in CD and in PC+CDELT form, exact rotations in both parities with isotropic / "
                 "anisotropic / RA-reversed scales, skews, seeded integer matrices; kinds: array-backed Image, ImageDescription, and - on every 4th "
                 "header - PIL-backed Image in 4 backings x 5 pre-call histories); every case is replayed: flip, flip, and on a fresh "
-                "object ensure, ensure; data read back through asarray() and aspil(). distinct = distinct case; every case is "
-                "non-trivial (non-singular WCS, >= 1 pixel)")
+                "object ensure, ensure; data read back through asarray() and aspil(). In addition TLC generates every call history of "
+                "length 4 (thorough 5) over {flip, ensure} (x touch for PIL-backed) for a thin header set; each is replayed on one real "
+                "object and compared after every call. distinct = distinct (case, history); every case is non-trivial "
+                "(non-singular WCS, >= 1 pixel)")
     if ctx.quick:
         hdrs = headers(ctx.rng, 8, every_pc_form=2)
         widths, heights = [1, 3], [1, 2, 5]
@@ -380,13 +488,29 @@ def run(ctx):
     # PIL-backed objects (with the Touch action) on every 4th header: the backing does not interact with the matrix entries
     recs = []
     for kinds, hd in ((["image", "desc"], hdrs), (["pil"], hdrs[::4])):
-        r = ctx.tlc("MCParity", extra={"MCParity.tla": mc_module(kinds, widths, heights, hd, refx, refy)}, cfg_text=CFG,
+        r = ctx.tlc("MCParity", extra={"MCParity.tla": mc_module(kinds, widths, heights, hd, refx, refy)}, cfg_text=CFG % 0,
                     workers=8, timeout=3000)
         got = r.json_lines("R")
         n_expected = len(kinds) * len(widths) * len(hd) * len(refx) * sum(len({a + b * h for a, b in refy}) for h in heights)
         if len(got) != n_expected:
             ctx.machinery("TLC emitted %d cases, expected %d" % (len(got), n_expected))
         recs += got
+    # ---- call histories: TLC generates every sequence of MAXHIST calls over {flip, ensure} (x touch for PIL-backed objects);
+    # each is replayed on ONE real object and compared with the spec's state after every call
+    hh = history_headers(hdrs)
+    MAXHIST = 4 if ctx.quick else 5
+    hist_recs = []
+    for kinds, hd, ws, hs in ((["image", "desc"], hh, [3], heights[-2:]), (["pil"], hh[::3], [3], heights[-1:])):
+        r = ctx.tlc("MCParity", extra={"MCParity.tla": mc_module(kinds, ws, hs, hd, refx[:1], refy[:2], MAXHIST)},
+                    cfg_text=CFG % MAXHIST, workers=8, timeout=3000)
+        got = r.json_lines("H")
+        per_case = (3 if kinds == ["pil"] else 2) ** MAXHIST
+        n_expected = len(kinds) * len(ws) * len(hd) * sum(len({a + b * h for a, b in refy[:2]}) for h in hs) * per_case
+        if len(got) != n_expected:
+            ctx.machinery("TLC emitted %d call histories, expected %d" % (len(got), n_expected))
+        hist_recs += got
+    hist_recs.sort(key=lambda q: (q["orig"]["kind"], q["orig"]["w"], q["orig"]["h"], q["orig"]["cdelt"], q["orig"]["pc"], q["orig"]["p"], q["hist"]))
+    ctx.note("call_histories", len(hist_recs))
     recs.sort(key=lambda q: (q["orig"]["kind"], q["orig"]["w"], q["orig"]["h"], q["orig"]["cdelt"], q["orig"]["pc"], q["orig"]["p"]))
     # png files for the ImageLoader-backed objects (one per size; written before the pool starts)
     import numpy as np
@@ -397,8 +521,9 @@ def run(ctx):
             b = np.arange(h * w).reshape(h, w)
             arr = np.stack([b % 251, b // 251, np.full_like(b, 7)], axis=2).astype(np.uint8)
             PilImage.fromarray(arr).save(os.path.join(bdir, "bitmap_%dx%d.png" % (w, h)))
+    jobs = [(i, rec, bdir) for i, rec in enumerate(recs)] + [(i, rec, bdir) for i, rec in enumerate(hist_recs)]
     with mp.Pool(8) as pool:
-        results = pool.map(replay_case, [(i, rec, bdir) for i, rec in enumerate(recs)], chunksize=32)
+        results = pool.map(replay_case, jobs, chunksize=32)
     combos = set()
     for i, rec in enumerate(recs):
         if rec["orig"]["kind"] == "pil" and rec["orig"]["h"] > 1:
@@ -406,11 +531,11 @@ def run(ctx):
     ctx.note("pil_backing_x_pretouch_x_startsign_combinations_with_h_gt_1", len(combos))
     if len(combos) != len(BACKINGS) * len(TOUCHES) * 2:
         ctx.machinery("only %d of %d (backing, pre-touch, starting sign) combinations were exercised" % (len(combos), len(BACKINGS) * len(TOUCHES) * 2))
-    for (res, ncalls), rec in zip(results, recs):
+    for (res, ncalls), rec in zip(results, recs + hist_recs):
         ctx.count(ncalls)
         ctx.trace_ok()
         o = rec["orig"]
-        ctx.distinct((o["kind"], o["w"], o["h"], tuple(o["cdelt"]), tuple(o["pc"]), tuple(o["p"])))
+        ctx.distinct((o["kind"], o["w"], o["h"], tuple(o["cdelt"]), tuple(o["pc"]), tuple(o["p"]), tuple(rec.get("hist", ()))))
         for sev, key, msg, case in res:
             if sev == "V":
                 ctx.violation("C16:" + key, "%s [%s %dx%d, CD=%s, CRPIX=%s, CRVAL=%s]" % (msg, case["kind"], case["height"], case["width"], case["CD"], case["CRPIX"], case["CRVAL"]),
@@ -422,6 +547,9 @@ def run(ctx):
     for rec in recs[:: max(1, len(recs) // 4)][:4]:
         ctx.sample({"case": rec["orig"], "start": rec["start"], "predicted_after_flip": rec["flip"], "predicted_after_ensure": rec["ensure"],
                     "world_first_row_before": rec["world"][0], "world_last_row_after_flip": rec["wflip"][-1]})
+    for rec in hist_recs[:: max(1, len(hist_recs) // 2)][:2]:
+        ctx.sample({"case": rec["orig"], "calls": rec["hist"], "specified_sign_after_each_call": [t["snap"]["sign"] for t in rec["trace"]],
+                    "specified_rows_after_each_call": [t["snap"]["rows"] for t in rec["trace"]]}, force=True)
     ctx.exhaustive = False
     ctx.note("cases", len(recs))
     ctx.note("headers", len(hdrs))
